@@ -82,10 +82,11 @@ MockJudge ==
   /\ Report("I_Mock_WellFormed", {j \in DOMAIN job.mocks : ~MockWellFormed(job.mocks[j])})
   /\ Report("I_Mock_Reproducible", {j \in DOMAIN job.mocks : job.mocks[j].digest # job.mocks[j].digest2})
   /\ Report("N_mocks", DOMAIN job.mocks)
-Export == JsonSerialize(IOEnv.OUT_DIR \o "/frames.json",
-             SetToSeq(IF IOEnv.TIER = "quick" THEN Frames(2, {"plain", "mixedceilo", "floattype"}) \cup Frames(1, Variants)
+(* parameterised: TLC evaluates every constant-level definition without parameters when it starts, in the judging runs too *)
+Export(tier, dir) == JsonSerialize(dir \o "/frames.json",
+             SetToSeq(IF tier = "quick" THEN Frames(2, {"plain", "mixedceilo", "floattype"}) \cup Frames(1, Variants)
                       ELSE Frames(3, {"plain"}) \cup Frames(2, Variants)))
 Init == job = (IF IOEnv.MODE = "export" THEN [cases |-> <<>>] ELSE JsonDeserialize(IOEnv.JOB_FILE)) /\ done = FALSE
-Next == ~done /\ done' = TRUE /\ job' = job /\ (IF IOEnv.MODE = "export" THEN Export ELSE IF IOEnv.MODE = "mock" THEN MockJudge ELSE Judge)
+Next == ~done /\ done' = TRUE /\ job' = job /\ (IF IOEnv.MODE = "export" THEN Export(IOEnv.TIER, IOEnv.OUT_DIR) ELSE IF IOEnv.MODE = "mock" THEN MockJudge ELSE Judge)
 Spec == Init /\ [][Next]_<<job, done>>
 =============================================================================
